@@ -3,15 +3,15 @@ CONSTANTS
   T = 2
   QCap = 2
   MaxNow = 3
-  MaxPkts = 3
+  MaxPkts = 1
   MaxH = 3
   Mode = "mc"
   H = 1
   N = 0
-  PerRecordSweep = FALSE
+  PerRecordSweep = TRUE
   SnapshotSweep = FALSE
-  Target = "all"
+  Target = "inner"
 SPECIFICATION Spec
 INVARIANTS TypeOK Consistent FIFO
-PROPERTIES DequeueIsHead NoCrossTalk NeverDiscardEarly KeptWhileSeen SweepComplete OpsFailAfterClose
+PROPERTIES DequeueIsHead NoCrossTalk NeverDiscardEarly KeptWhileSeen
 CHECK_DEADLOCK FALSE
